@@ -6,7 +6,7 @@ One output line per input line.  See harness/c14.py for the producer.
   scenario devs|abm         reset
   prog a cmd ; cmd ; …      define program a        (cmd: abs t p a | rel d p a | cancel k | drop k)
   stepprog cmd ; …          define the user's step body
-  setup
+  setup | reset              (reset = Simulator.reset() followed by a fresh model: back to `init`)
   abs t p a | rel d p a | cancel k | drop k
   until T | for d | next | peek n
 -/
@@ -64,6 +64,7 @@ def stepLine (st : St) (ws : List String) : St × String :=
       | some cmds => ({ st with sim := { s with stepProg := cmds } }, "ok")
       | none => (st, "bad-op")
   | ["setup"] => ({ st with sim := setup s }, "ok")
+  | ["reset"] => ({ st with sim := init s.kind s.prog s.stepProg }, "ok")   -- Simulator.reset + a fresh model
   | ["until", t] =>
       match t.toInt? with
       | none => (st, "bad-op")
